@@ -344,6 +344,20 @@ func evalSkip(c SkipCase) (problems []string) {
 	if !reflect.DeepEqual(g, want) && !(len(g) == 0 && len(want) == 0) {
 		bad("skip=%v: change set %v, expected the unskipped diff filtered: %v", keys(names), minus(g, want), minus(want, g))
 	}
+	// the same policy handed over as several options (one kind each) accumulates.
+	if len(skip) > 1 {
+		opts := []schema.DiffOption{schema.DiffNormalized()}
+		for _, k := range skip {
+			opts = append(opts, schema.DiffSkipChanges(k))
+		}
+		from3, to3 := pair(d)
+		got3, err := d.Diff.RealmDiff(from3, to3, opts...)
+		if err != nil {
+			bad("diff with the policy split into %d options: %v", len(skip), err)
+		} else if g3 := dfu.Flatten(got3); !reflect.DeepEqual(g3, g) && !(len(g3) == 0 && len(g) == 0) {
+			bad("skip=%v given as %d separate options gives %v, as one option %v", keys(names), len(skip), g3, g)
+		}
+	}
 	return
 }
 
@@ -374,7 +388,7 @@ func minus(a, b []string) []string {
 
 func Run(r *report.Run) {
 	ctx := context.Background()
-	r.Rule = "(a) exclude: a SQLite database with colliding names (4 tables, a view, columns/indexes/foreign keys/checks) on a real engine x every pattern table[.child][selector] from 10 table globs x 8 child globs x 9 type selectors (quick: every single pattern; thorough: every unordered pair), through InspectSchema and InspectRealm, compared element by element with a reference of the pattern semantics built on path.Match; (b) skip: per dialect a change set containing every skippable kind at every nesting level x all 2^15 subsets of the policy kinds {Add,Drop,Modify} x {Schema,Table,Column,Index,ForeignKey}: the change tree must equal the unskipped diff with the skipped kinds filtered out recursively; (c) end to end: real `atlas schema apply --auto-approve` on a SQLite file whose current and desired states disagree on 3 tables and 3 columns (one per way a plan can touch a resource) x every set of <=2 of 9 exclude patterns x {--exclude flags, env exclude} x {no dev database, dev database} x desired state {HCL file, database URL}, and all 15 non-empty subsets of diff.skip {add_table, drop_table, add_column, drop_column} in a project file (in the env's diff block, or in the project-level diff block inherited by an env without / with a diff block of its own): a resource is left exactly as it was iff a pattern matches it / its change kind is skipped, everything else reaches the desired state, rows survive, and a second apply is a no-op; non-trivial = pattern set excluding >=1 element, or a non-empty skip subset; distinct by construction"
+	r.Rule = "(a) exclude: a SQLite database with colliding names (4 tables, a view, columns/indexes/foreign keys/checks) on a real engine x every pattern table[.child][selector] from 10 table globs x 8 child globs x 9 type selectors (quick: every single pattern; thorough: every unordered pair), through InspectSchema and InspectRealm, compared element by element with a reference of the pattern semantics built on path.Match; (b) skip: per dialect a change set containing every skippable kind at every nesting level x all 2^15 subsets of the policy kinds {Add,Drop,Modify} x {Schema,Table,Column,Index,ForeignKey}: the change tree must equal the unskipped diff with the skipped kinds filtered out recursively, also when the policy is handed over as several options; (c) end to end: real `atlas schema apply --auto-approve` on a SQLite file whose current and desired states disagree on 3 tables and 3 columns (one per way a plan can touch a resource) x every set of <=2 of 9 exclude patterns x {--exclude flags, env exclude} x {no dev database, dev database} x desired state {HCL file, database URL}, and all 15 non-empty subsets of diff.skip {add_table, drop_table, add_column, drop_column} in a project file (in the env's diff block, or in the project-level diff block inherited by an env without / with a diff block of its own): a resource is left exactly as it was iff a pattern matches it / its change kind is skipped, everything else reaches the desired state, rows survive, and a second apply is a no-op; non-trivial = pattern set excluding >=1 element, or a non-empty skip subset; distinct by construction"
 	r.Assumptions = []string{
 		"indexes/foreign keys built on an excluded column, and foreign keys pointing at an excluded table, are unspecified by the documentation: not judged",
 		"the CLI slice uses one fixed pair of schemas in which every way a plan can touch a resource occurs once",
